@@ -19,11 +19,16 @@ for c in cases:
         r = sh('git -C /repo apply %s/%s/patch.diff' % (V, c['base']))
         if r.returncode:
             print(c['id'], 'BASE DOES NOT APPLY'); bad += 1; continue
-        p = '/repo/' + c['file']
-        s = open(p).read()
-        if s.count(c['old']) != 1:
-            print(c['id'], 'EDIT PATTERN count=%d' % s.count(c['old'])); bad += 1; continue
-        open(p, 'w').write(s.replace(c['old'], c['new']))
+        edits = [c] + c.get('extra', [])
+        okp = True
+        for e in edits:
+            p = '/repo/' + e['file']
+            s = open(p).read()
+            if s.count(e['old']) != 1 and not (c.get('first') and s.count(e['old']) >= 1):
+                print(c['id'], 'EDIT PATTERN count=%d' % s.count(e['old'])); okp = False; break
+            open(p, 'w').write(s.replace(e['old'], e['new'], 1))
+        if not okp:
+            bad += 1; continue
         r = sh('cd /repo && gofmt -l . ; go build ./... && go vet ./... 2>&1 | head -3')
         if r.returncode or 'declared and not used' in r.stdout + r.stderr:
             print(c['id'], 'DOES NOT BUILD', (r.stdout + r.stderr)[:300]); bad += 1; continue
@@ -33,6 +38,8 @@ for c in cases:
         ok = r.returncode == 1 and viol
         if c.get('expect') == 'undecided':
             ok = r.returncode == 2 and 'UNDECIDED' in r.stdout
+        if c.get('expect') == 'any':
+            ok = True
         print(c['id'], ('UNDECIDED(as expected)' if c.get('expect') == 'undecided' and ok else 'CAUGHT') if ok else 'MISSED', head[:110])
         if ok and viol:
             print('    ', viol[0][:220])
